@@ -28,6 +28,9 @@ FOCUS = {
            "enforce_overwrite": 1.5, "solve": 1.0},
     "mapping": {"mk_mapping": 2.0, "mapping_eval": 8.0, "mesh_tables": 1.0,
                 "mesh_refined": 0.5, "mesh_transform": 0.5},
+    "rebuild": {"mesh_rebuild": 4.0, "mesh_transform": 2.5, "mesh_refined": 2.0,
+                "mesh_tables": 2.0, "mk_basis": 2.0, "mesh_tag": 1.0,
+                "mesh_finder": 1.0, "mk_mapping": 1.0, "mapping_eval": 2.0},
     "elements": {"mk_elem": 2.0, "mk_mesh": 2.0, "mk_basis": 5.0,
                  "elem_lbasis": 3.0, "basis_observe": 2.0, "basis_derive": 1.5,
                  "mesh_refined": 1.0},
